@@ -16,6 +16,7 @@ func run(c *vh.Ctx) {
 	runPairs(c)
 	runSlices(c)
 	runReconvert(c)
+	runTableViews(c)
 	runRemarshalAfterEdit(c)
 	runHellos(c)
 	flushCases(c)
